@@ -167,7 +167,32 @@ def run(ctx):
             if phase == "cold":
                 impl = cur
             elif any(len(cur[k]) != len(impl[k]) or cur[k] != impl[k] for k in cur):
-                ctx.violation("tie", "cold-cache and warm-cache answers differ", {"correspondence": "tie:TriIndex.caches"}, no_input=True)
+                for key, dom in (("triu", ns), ("compress", ns), ("reinflate", ns), ("classes", nws)):
+                    bad_at = [d for d, a, b in zip(dom, impl[key], cur[key]) if a != b]
+                    if bad_at:
+                        ctx.violation("monitor", "%s gives a different answer the second time it is asked in the same process (first at %s)" % (key, bad_at[0],),
+                                      {"what": key, "case": bad_at[0], "phase": "second pass"})
+                        break
+        # third pass: sizes in a shuffled order (state kept between calls must not matter), definition-level check
+        order = [int(i) for i in rng.permutation(len(nws))]
+        from fast_ticc.admm import unique_values as uv2
+        for i in order:
+            N, W = nws[i]
+            if not ctx.thorough and N * W > 60:
+                continue
+            with ctx.guard("class maps (shuffled order)", {"N": N, "W": W}):
+                n = N * W
+                for b in range(W):
+                    r = int(rng.integers(0, N)); c = int(rng.integers(r if b == 0 else 0, N))
+                    comp = uv2.locations_compressed(b, r, c, N, W)
+                    rows, cols = uv2.locations_index_slices(b, r, c, N, W)
+                    for R, C, k in zip(rows, cols, comp):
+                        if k != R * n - R * (R - 1) // 2 + (C - R) or uv2._compressed_index(R, C, n) != k:
+                            ctx.violation("monitor", "compressed index of (%d,%d) for n=%d is %d, its row-major rank is %d (sizes visited in shuffled order)"
+                                          % (R, C, n, k, R * n - R * (R - 1) // 2 + (C - R)), {"N": N, "W": W, "class": [b, r, c]})
+                            break
+            ctx.count("NW-shuffled")
+
         # error branch of the closed form (kept covered; the model has no lower-triangle index)
         from fast_ticc.admm import unique_values as uv
         try:
